@@ -24,13 +24,19 @@ MANIFEST = dict(
          "directory, dangling, to a directory - leaves the link's target and everything outside the directory byte-identical, which the "
          "check asserts by comparing every file outside the package directory before and after), Clean removes only files "
          "carrying this sub-command's per-type header for every listing; the glob and first-line recognisers are proved equal to "
-         "declarative decompositions. No finding region is left (two defects were repaired in /repo). Tied to the code by a theorem over the "
-         "regenerated table of file-mutating os calls, by an in-process differential of the model's Clean against the real Clean on real "
+         "declarative decompositions; the clean-up follows the last rename (C17_clean_follows_writes: once a superseded entry is gone the "
+         "op prefix holds every output's complete transaction) and judges a file by its first line only, for every file CONTENT "
+         "(C17_clean_content_header, C17_first_line_decides). One finding region F_glob_dir (Clean's glob pattern holds the unescaped [dir] "
+         "argument: ?, *, [..] in the path make it delete generated files of OTHER directories; witness theorem, replayed on every run; a "
+         "repair is proposed); two earlier defects were repaired in /repo. Tied to the code by theorems over regenerated tables (every "
+         "file-mutating os call; the ORDER of the phase calls in main.main - Clean once, after the write loop, called from nowhere else; "
+         "the one place Clean's helpers read file content: one ReadString outside any loop), by an in-process differential of the model's Clean against the real Clean on real "
          "directories (verif hook), and by strace: syscall sequence vs the model's ops, SIGKILL at every write/rename/unlink, right after "
          "every rename, at openat/close by ordinal and at random instants, ENOSPC/EACCES injected on write/rename/unlink, a concurrent "
          "reader, on ~26 (quick) / ~150 (thorough) directory states x 4 sub-commands x 3 invocations; the states include -file values "
          "with a directory part (./a.go, sub/a.go, ../sib/a.go, ../<pkg>/a.go) that name an existing file called like a source file of the "
-         "package, next to sub-/sibling packages with generated files of their own (every file under the module root is compared), and "
+         "package, [dir] spelled ., ./, ./., .// (a staging file created outside the observed tree counts as a file created outside the "
+         "package directory), next to sub-/sibling packages with generated files of their own (every file under the module root is compared), and "
          "neighbours matching the clean glob whose first line is empty or 64 KiB..200 KB long.",
     note="Lean kernel + standard axioms; atomicity of rename(2) and freshness of O_EXCL inodes are assumed (model's step function); "
          "strace parser and scenario builder are trusted; if ptrace is unavailable the strace legs are skipped and the evidence says so.",
@@ -113,8 +119,11 @@ def build_scenario(cid, cmd, states, invoc, sel, rng):
     cwdp, dirp = pk + "/", ""
     if invoc == "pkg":
         cwd, dirarg = pk, []
+    elif invoc.startswith("dot"):
+        # the [dir] argument names the current directory itself, in one of its spellings
+        cwd, dirarg = pk, [{"dot": ".", "dot-slash": "./", "dot-dot": "./.", "dot-slashes": ".//"}[invoc]]
     elif invoc == "parent":
-        cwd, dirarg = ".", [rng.choice([pk, "./" + pk])]
+        cwd, dirarg = ".", [rng.choice([pk, "./" + pk, pk + "/", "./" + pk + "/"])]
     else:
         cwd, dirarg = ".", ["<ABS>/" + pk]
     args = [cmd] + fl + selargs + dirarg
@@ -280,6 +289,12 @@ def gen_scenarios(ctx):
         (("symlink-in",), "parent", "named"),
         (("symlink-dangling", "stale"), "pkg", "named"),
         (("symlink-dir",), "abs", "named"),
+        # the [dir] argument spelled as the current directory
+        (("per-type",), "dot-slash", "star"),
+        ((), "dot-slash", "named2"),
+        (("aio", "hardlink"), "dot", "named"),
+        (("stale",), "dot-dot", "file"),
+        (("per-type", "lookalike"), "dot-slashes", "star"),
         # neighbours with extreme first lines, in a directory that moves from per-type outputs to the all-in-one file
         (("per-type", "longline-%d" % rng.choice(LONG_LENS)), "pkg", "star"),
         (("stale", "longline-%d" % rng.choice(LONG_LENS)), "parent", "star"),
@@ -307,7 +322,7 @@ def gen_scenarios(ctx):
         off = rng.randrange(4)
         core_shapes = [x for x in shaped if {"lookalike", "nested", "longname", "dirname", "symlink-out"} & set(x[0]) and x[1] == "pkg" or x[2] in ("file-star",)
                        or x[2] in ("file:sib", "file-named:sib") or any(s.startswith("longline") for s in x[0]) and x[1] == "pkg"
-                       or x == (("stale", "per-type", "other-cmd"), "pkg", "star")]
+                       or x == (("stale", "per-type", "other-cmd"), "pkg", "star") or x == (("per-type",), "dot-slash", "star")]
         # (the remaining -file spellings are cheap - nothing is written - but each costs a traced run: two of them per seed)
         spelled = [x for x in shaped if ":" in x[2] and x not in core_shapes]
         others = [x for x in shaped if x not in core_shapes and x not in spelled]
@@ -327,7 +342,7 @@ def gen_scenarios(ctx):
         sel = rng.choice(["named", "named2", "star", "star", "file", "file-star", "file-named", "sep-star", "file-sep-star"])
         if sel.startswith("file") and rng.random() < 0.4:
             sel += ":" + rng.choice([x for x in FILE_SPELLINGS if x])
-        plan.append((rng.choice(cligen.CMDS), st, rng.choice(["pkg", "pkg", "parent", "abs"]), sel))
+        plan.append((rng.choice(cligen.CMDS), st, rng.choice(["pkg", "pkg", "parent", "abs", "dot-slash", "dot"]), sel))
     scs = [build_scenario("s%d" % i, cmd, st, inv, sel, rng) for i, (cmd, st, inv, sel) in enumerate(plan)]
     for i, sc in enumerate(scs):
         sc["index"] = i
@@ -456,6 +471,9 @@ def parse_trace(path, root):
             if r is not None:
                 wfds.add(p)
                 ev.append(("create" + ("-excl" if "O_EXCL" in flags and "O_CREAT" in flags else ""), r))
+            elif "O_EXCL" in flags and "O_CREAT" in flags and re.search(r"/\.[^/]*\.shoot[a-z]+[^/]*_\d+$", p):
+                # a staging file of an output, created OUTSIDE the observed tree ($TMPDIR, the current directory of another tree ...)
+                ev.append(("create-excl-outside", re.sub(r"_\d+$", "_N", p)))
         elif name in ("write", "pwrite64", "writev"):
             mm = re.match(r"\d+<([^>]*)>", args)
             if mm and rel(mm.group(1)) is not None:
@@ -633,6 +651,7 @@ def do_scenario(ctx, sc):
         ev = parse_trace(log, root)
         res["ops"] = canon_ops(ev)
         res["nsys"] = len(ev)
+        res["outside_events"] = sorted(set(e[1] for e in ev if e[0] == "create-excl-outside"))
     else:
         p = run_plain(ctx, sc, root)
     res["dur"] = time.time() - t0
@@ -937,7 +956,7 @@ def observe(sc, r):
     inside = all(p.startswith(pk) and g.match(p[len(pk):]) for p in r["created"] + r["removed"])
     im["confined"] = "yes" if inside else "no"
     # nothing outside the package directory is created, replaced, removed or changed (every file of the case root is hashed)
-    touched_outside = [p for p in r["created"] + r["removed"] + r["frame_bad"] if not p.startswith(pk)]
+    touched_outside = [p for p in r["created"] + r["removed"] + r["frame_bad"] if not p.startswith(pk)] + r.get("outside_events", [])
     im["outside-untouched"] = "no" if touched_outside else "yes"
     init = sc["init"]
     bad_rm = []
